@@ -463,6 +463,10 @@ def skew(v):
     :seealso: :func:`vex`, :func:`skewa`
     :SymPy: supported
     """
+    if isinstance(v, np.ndarray) and v.dtype.kind in 'iu':
+        # negation wraps around for unsigned elements, and for the most negative
+        # value of a signed type
+        v = v.astype(np.float64)
     v = base.getvector(v, None, 'sequence')
     if len(v) == 1:
         return np.array([
